@@ -4,6 +4,7 @@ import (
 	"fmt"
 	"go/token"
 	"go/types"
+	"sort"
 	"strings"
 
 	"golang.org/x/tools/go/ssa"
@@ -53,6 +54,9 @@ func runC04(r *Run) {
 			}
 			if dependsOnParam(fr.Val, "pathRaw") {
 				derived[fr.Name] = r.pos(fr.Instr)
+			} else if _, root, ok := flagFromCompare(reg, fr.Val); ok && dependsOnParam(root, "pathRaw") {
+				// a flag set by control flow (`switch pathPretty { case "/": isRoot = true }`)
+				derived[fr.Name] = r.pos(fr.Instr)
 			}
 		}
 		r.atLeast("path-derived Route fields in register", len(derived), 6)
@@ -98,12 +102,8 @@ func runC04(r *Run) {
 			if !fr.Write || !strings.HasPrefix(fr.Name, "Route.") || fr.Val == nil {
 				continue
 			}
-			cmp, ok := stripValue(fr.Val).(*ssa.BinOp)
-			if !ok || cmp.Op != token.EQL {
-				continue
-			}
-			lit, isLit := constString(asConst(cmp.Y))
-			if !isLit || !dependsOnParam(cmp.X, "pathRaw") {
+			lit, cmpRoot, isLit := flagFromCompare(reg, fr.Val)
+			if !isLit || !dependsOnParam(cmpRoot, "pathRaw") {
 				continue
 			}
 			nflags++
@@ -116,23 +116,19 @@ func runC04(r *Run) {
 				if !pr.Write || pr.Name != fr.Name || pr.Val == nil {
 					continue
 				}
-				okFlag = dependsOn(pr.Val, func(v ssa.Value) bool {
-					bo, ok := v.(*ssa.BinOp)
-					if !ok || (bo.Op != token.EQL && bo.Op != token.NEQ) {
-						return false
-					}
-					for _, pair := range [][2]ssa.Value{{bo.X, bo.Y}, {bo.Y, bo.X}} {
-						if l, ok := constString(asConst(pair[1])); ok && l == lit {
-							return dependsOn(pair[0], func(x ssa.Value) bool {
-								c, ok := x.(*ssa.Call)
-								return ok && strings.HasSuffix(calleeName(&c.Call), "getGroupPath")
-							}) != nil
-						}
-					}
-					return false
-				}) != nil
+				// derived from the prefixed pattern — by data (`prettyPath == "/"`, `len(p) == 1 && p[0] == '/'`) or by a
+				// comparison that steers the assignment; which comparison is the matcher's business (C01-R10, C05-R8)
+				isPrefixed := func(x ssa.Value) bool {
+					c, ok := x.(*ssa.Call)
+					return ok && strings.HasSuffix(calleeName(&c.Call), "getGroupPath")
+				}
+				if dependsOn(pr.Val, isPrefixed) != nil {
+					okFlag = true
+				} else if _, root, ok := flagFromCompare(pre, pr.Val); ok && dependsOn(root, isPrefixed) != nil {
+					okFlag = true
+				}
 			}
-			r.check(okFlag, "addPrefixToRoute:"+fr.Name+":derived-from-the-prefixed-pattern", r.fpos(pre), fmt.Sprintf("the flag is the comparison of the prefixed, normalised pattern with %q, as at registration", lit),
+			r.check(okFlag, "addPrefixToRoute:"+fr.Name+":derived-from-the-prefixed-pattern", r.fpos(pre), fmt.Sprintf("the flag is derived from the prefixed, normalised pattern (at registration: a comparison with %q)", lit),
 				fmt.Sprintf("%s is derived from the pattern at registration (== %q, %s) but set to a constant at mount: a sub-app's root-level Use mounted on \"/\" loses `matches everything` — GET // (empty detection path) skips a middleware that the same Use registered directly, or through Group(\"/\"), runs", fr.Name, lit, r.pos(fr.Instr)))
 		}
 		r.atLeast("pattern-comparison flags in register", nflags, 2)
@@ -445,6 +441,11 @@ func runC04(r *Run) {
 	r.rule("R5", "processSubAppsRoutes: splice order prefix|clones|suffix, stack replaced afterwards, sub-apps flattened first, positions renumbered (E3/E10)", func() {
 		f := r.Fn("", "(*App).processSubAppsRoutes")
 		copies := callsMatching(f, false, nameIs("builtin:copy"))
+		if len(copies) == 0 {
+			// the same splice written as three appends to an empty slice of the right capacity
+			spliceByAppends(r, f)
+			return
+		}
 		if len(copies) != 3 {
 			r.bad("splice:three-copies", r.fpos(f), fmt.Sprintf("expected exactly 3 copy() calls building the new stack, found %d", len(copies)))
 			return
@@ -556,4 +557,157 @@ func runC04(r *Run) {
 		}
 		r.check(posOK, "splice:renumber-positions", r.fpos(f), "non-mount routes get consecutive positions from a running counter", "route positions are not renumbered after the splice (merged buckets would be sorted by stale positions)")
 	})
+}
+
+// spliceByAppends: C04-R5 for `n := make([]*Route, 0, …); n = append(n, old[:i]...); n = append(n, clones...);
+// n = append(n, old[i+1:]...)` — the same obligations as for the copy form: sources and order, the suffix skips exactly
+// the placeholder, the stack is replaced by the finished slice, clones are made before they are re-prefixed.
+func spliceByAppends(r *Run, f *ssa.Function) {
+	type app struct {
+		c     callSite
+		depth int
+	}
+	var chain []app
+	var depthOf func(v ssa.Value, d int) int
+	depthOf = func(v ssa.Value, d int) int { // number of appends between v and a make([]…, 0, …); −1: no such origin
+		if d > 6 {
+			return -1
+		}
+		switch x := stripValue(v).(type) {
+		case *ssa.MakeSlice:
+			return 0
+		case *ssa.Call:
+			if b, ok := x.Call.Value.(*ssa.Builtin); ok && b.Name() == "append" && len(x.Call.Args) == 2 {
+				if n := depthOf(x.Call.Args[0], d+1); n >= 0 {
+					return n + 1
+				}
+			}
+		}
+		return -1
+	}
+	for _, c := range callsMatching(f, false, nameIs("builtin:append")) {
+		if len(c.Common.Args) != 2 || !strings.HasSuffix(c.Common.Args[0].Type().String(), ".Route") {
+			continue
+		}
+		if n := depthOf(c.Value(), 0); n >= 1 {
+			chain = append(chain, app{c, n})
+		}
+	}
+	sort.Slice(chain, func(i, j int) bool { return chain[i].depth < chain[j].depth })
+	if len(chain) != 3 || chain[0].depth != 1 || chain[1].depth != 2 || chain[2].depth != 3 {
+		r.bad("splice:three-copies", r.fpos(f), fmt.Sprintf("expected 3 copy() calls or a chain of 3 appends building the new stack, found %d appends in a chain", len(chain)))
+		return
+	}
+	roles := make([]string, 3)
+	for i, a := range chain {
+		src := a.c.Common.Args[1]
+		switch sl := src.(type) {
+		case *ssa.Slice:
+			fromStack := dependsOn(sl.X, func(v ssa.Value) bool { return loadOfField(v, "App.stack") }) != nil
+			switch {
+			case fromStack && sl.Low == nil && sl.High != nil:
+				roles[i] = "prefix"
+			case fromStack && sl.Low != nil && sl.High == nil:
+				roles[i] = "suffix"
+			default:
+				roles[i] = "?"
+			}
+		default:
+			if dependsOn(src, func(v ssa.Value) bool { _, ok := v.(*ssa.MakeSlice); return ok }) != nil {
+				roles[i] = "clones"
+			} else {
+				roles[i] = "?"
+			}
+		}
+	}
+	r.check(strings.Join(roles, "|") == "prefix|clones|suffix", "splice:sources-and-order", r.pos(chain[0].c.Instr),
+		"new stack = old[:i] | cloned sub routes | old[i+1:]", "splice sources/order are "+strings.Join(roles, "|")+", want prefix|clones|suffix")
+	if sl, ok := chain[2].c.Common.Args[1].(*ssa.Slice); ok {
+		bo, ok2 := sl.Low.(*ssa.BinOp)
+		r.check(ok2 && bo.Op == token.ADD && isConstInt(bo.Y, 1), "splice:suffix-skips-placeholder", r.pos(chain[2].c.Instr), "suffix starts at i+1 (the mount placeholder is dropped)", "suffix does not start at i+1")
+	}
+	last := chain[2].c.Value()
+	okStore := false
+	for _, in := range instrsWhere(f, func(in ssa.Instruction) bool {
+		st, ok := in.(*ssa.Store)
+		if !ok {
+			return false
+		}
+		ia, ok := st.Addr.(*ssa.IndexAddr)
+		return ok && loadOfField(ia.X, "App.stack")
+	}) {
+		st := in.(*ssa.Store)
+		okStore = st.Val == last || dependsOn(st.Val, func(v ssa.Value) bool { return v == last }) != nil
+	}
+	r.check(okStore, "splice:replace-after-fill", r.fpos(f), "app.stack[m] is replaced by the result of the last append", "the old stack is replaced before the new one is complete (or never)")
+	cp := callsMatching(f, false, nameHasSuffix("App).copyRoute"))
+	ap := callsMatching(f, false, nameHasSuffix("App).addPrefixToRoute"))
+	okClone := len(cp) == 1 && len(ap) == 1 && len(ap[0].Common.Args) == 3 && ap[0].Common.Args[2] == cp[0].Value()
+	r.check(okClone, "splice:clone-then-prefix", r.fpos(f), "each sub route is cloned, then the clone is re-prefixed", "sub routes are not cloned before being re-prefixed (the sub-app's own routes would be mutated)")
+	var recCall ssa.Instruction
+	for _, a := range anonFuncsDeep(f) {
+		for _, c := range callsMatching(a, false, nameHasSuffix("App).processSubAppsRoutes")) {
+			recCall = c.Instr
+		}
+	}
+	r.check(recCall != nil, "splice:flatten-subapps-first", r.fpos(f), "sub-apps with their own mounts are flattened (recursive call) before their stacks are read", "nested mounts are not flattened before splicing")
+	posOK := false
+	for _, fr := range fieldRefs(f) {
+		if fr.Write && fr.Name == "Route.pos" {
+			if phi, ok := fr.Val.(*ssa.BinOp); ok && phi.Op == token.ADD && isConstInt(phi.Y, 1) {
+				for _, br := range branchesIn(f) {
+					if loadOfField(br.Info.Root, "Route.mount") {
+						if s, ok := br.truthSlot(false); ok && dom(br.If.Block().Succs[s], fr.Instr.Block()) {
+							posOK = true
+						}
+					}
+				}
+			}
+		}
+	}
+	r.check(posOK, "splice:renumber-positions", r.fpos(f), "non-mount routes get consecutive positions from a running counter", "route positions are not renumbered after the splice (merged buckets would be sorted by stale positions)")
+}
+
+// flagFromCompare: v is a boolean decided by comparing a string with a literal — as data (`x == "/"`) or by control
+// flow (a phi of constants whose true edge lies behind the equal edge of such a comparison, as after
+// `switch x { case "/": flag = true }`). Answers the literal and the compared value.
+func flagFromCompare(f *ssa.Function, v ssa.Value) (string, ssa.Value, bool) {
+	v = stripValue(v)
+	if bo, ok := v.(*ssa.BinOp); ok && bo.Op == token.EQL {
+		if lit, ok := constString(asConst(bo.Y)); ok {
+			return lit, bo.X, true
+		}
+		if lit, ok := constString(asConst(bo.X)); ok {
+			return lit, bo.Y, true
+		}
+	}
+	ph, ok := v.(*ssa.Phi)
+	if !ok {
+		return "", nil, false
+	}
+	for k, e := range ph.Edges {
+		b, isB := constBool(asConst(e))
+		if !isB {
+			return "", nil, false
+		}
+		if !b {
+			continue
+		}
+		pred := ph.Block().Preds[k]
+		for _, br := range branchesInOne(f) {
+			lit, isLit := constString(br.Info.Const)
+			if !isLit {
+				continue
+			}
+			sl, ok := br.slotFor(token.EQL)
+			if !ok {
+				continue
+			}
+			tgt := br.If.Block().Succs[sl]
+			if (tgt == ph.Block() && br.If.Block() == pred) || tgt == pred || (len(tgt.Preds) == 1 && dom(tgt, pred)) {
+				return lit, br.Info.Root, true
+			}
+		}
+	}
+	return "", nil, false
 }
